@@ -160,10 +160,19 @@ def observe_query(Request, qs):
     return _plain(Request({'QUERY_STRING': qs}).query)
 
 
-def observe_forms(Request, body_text, qs=''):
+FORM_CTYPES = ['application/x-www-form-urlencoded', 'application/x-www-form-urlencoded; charset=UTF-8',
+               'APPLICATION/X-WWW-FORM-URLENCODED', 'application/x-www-form-urlencoded;charset=utf-8', None]
+_ct_rot = [0]
+
+
+def observe_forms(Request, body_text, qs='', ctype='rotate'):
     body = body_text.encode('latin1')
-    env = {'QUERY_STRING': qs, 'CONTENT_TYPE': 'application/x-www-form-urlencoded', 'CONTENT_LENGTH': str(len(body)),
-           'wsgi.input': io.BytesIO(body), 'REQUEST_METHOD': 'POST'}
+    if ctype == 'rotate':        # every spelling of the urlencoded content type (and none at all) is used in turn
+        _ct_rot[0] = (_ct_rot[0] + 1) % len(FORM_CTYPES)
+        ctype = FORM_CTYPES[_ct_rot[0]]
+    env = {'QUERY_STRING': qs, 'CONTENT_LENGTH': str(len(body)), 'wsgi.input': io.BytesIO(body), 'REQUEST_METHOD': 'POST'}
+    if ctype is not None:
+        env['CONTENT_TYPE'] = ctype
     r = Request(env)
     return _plain(r.forms), _plain(r.params)
 
@@ -187,21 +196,22 @@ def check_pairs(res, Request, pairs, flavours, with_forms):
             core.add_violation(res, {'kind': 'pairs', 'pairs': [list(p) for p in pairs], 'flavour': fl, 'at': 'query'},
                                f'query {qs!r} -> {got!r}, expected {exp!r}', sig='roundtrip:query')
         if with_forms:
+            ct = FORM_CTYPES[(len(qs) + fl) % len(FORM_CTYPES)]
             try:
-                gf, gp = observe_forms(Request, qs, qs='z=1&a=q')
+                gf, gp = observe_forms(Request, qs, qs='z=1&a=q', ctype=ct)
             except Exception as e:   # noqa
                 gf = gp = f'raised {type(e).__name__}: {e}'
             res['transitions'] += 2
             c['forms_checked'] += 1
             c['params_checked'] += 1
             if gf != exp:
-                core.add_violation(res, {'kind': 'pairs', 'pairs': [list(p) for p in pairs], 'flavour': fl, 'at': 'forms'},
-                                   f'forms body {qs!r} -> {gf!r}, expected {exp!r}', sig='roundtrip:forms')
+                core.add_violation(res, {'kind': 'pairs', 'pairs': [list(p) for p in pairs], 'flavour': fl, 'at': 'forms', 'ctype': ct},
+                                   f'forms body {qs!r} (Content-Type {ct!r}) -> {gf!r}, expected {exp!r}', sig='roundtrip:forms')
             expp = {'z': '1', 'a': 'q'}
             expp.update(exp)
             if gp != expp:
-                core.add_violation(res, {'kind': 'pairs', 'pairs': [list(p) for p in pairs], 'flavour': fl, 'at': 'params'},
-                                   f'params (query z=1&a=q, body {qs!r}) -> {gp!r}, expected {expp!r}', sig='roundtrip:params')
+                core.add_violation(res, {'kind': 'pairs', 'pairs': [list(p) for p in pairs], 'flavour': fl, 'at': 'params', 'ctype': ct},
+                                   f'params (query z=1&a=q, body {qs!r}, Content-Type {ct!r}) -> {gp!r}, expected {expp!r}', sig='roundtrip:params')
     res['execs'] += len(flavours)
     if nontriv or any(ch in '&=+% ' or ord(ch) > 127 for k, v in pairs for ch in k + v):
         res['nontrivial'] += len(flavours)
@@ -221,6 +231,30 @@ def _fresh_request():
     return sut.sub('request_pkg.request').Request
 
 
+def hist_step(Request, q, use_forms, mutate):
+    """one parse; when `mutate`, the handler then edits what it got (its own request's dict and lists) in place"""
+    try:
+        if use_forms:
+            body = q.encode('latin1')
+            r = Request({'QUERY_STRING': '', 'CONTENT_TYPE': FORM_CTYPES[0], 'CONTENT_LENGTH': str(len(body)),
+                         'wsgi.input': io.BytesIO(body), 'REQUEST_METHOD': 'POST'})
+            d = r.forms
+        else:
+            r = Request({'QUERY_STRING': q})
+            d = r.query
+        got = _plain(d)
+        if mutate:
+            for k, v in list(d.items()):
+                if isinstance(v, list):
+                    v.append('EDITED')
+                    v.sort()
+            d['INJECTED'] = 'x'
+            d.pop('a', None)
+        return got
+    except Exception as e:   # noqa
+        return f'raised {type(e).__name__}: {e}'
+
+
 def work_hist(spec, res, Request):
     """Parsing must depend on its own input only: every sequence of parses (alternating query / forms) from the menu,
     the last one compared with the reference decoder."""
@@ -232,10 +266,7 @@ def work_hist(spec, res, Request):
             got = None
             for i, q in enumerate(seq):
                 use_forms = mode == 'forms' or (mode == 'mixed' and i % 2 == 0)
-                try:
-                    got = observe_forms(Request, q)[0] if use_forms else observe_query(Request, q)
-                except Exception as e:   # noqa
-                    got = f'raised {type(e).__name__}: {e}'
+                got = hist_step(Request, q, use_forms, i < len(seq) - 1)
             res['states'] += 1
             res['transitions'] += depth
             c['hist_sequences'] += 1
@@ -343,14 +374,11 @@ def replay(case):
         got = None
         for i, q in enumerate(case['seq']):
             use_forms = case['mode'] == 'forms' or (case['mode'] == 'mixed' and i % 2 == 0)
-            try:
-                got = observe_forms(Request, q)[0] if use_forms else observe_query(Request, q)
-            except Exception as e:   # noqa
-                got = f'raised {type(e).__name__}: {e}'
+            got = hist_step(Request, q, use_forms, i < len(case['seq']) - 1)
         exp, _ = ref_decode(case['seq'][-1])
         if got == exp:
             return None
-        return (f'parsing the strings {case["seq"]!r} one after the other in one process ({case["mode"]}): the last one gives '
+        return (f'parsing the strings {case["seq"]!r} one after the other in one process ({case["mode"]}; each handler edits the dict it got in place): the last one gives '
                 f'{got!r}, alone it must give {exp!r}')
     if case['kind'] == 'pairs':
         pairs = [tuple(p) for p in case['pairs']]
@@ -360,7 +388,7 @@ def replay(case):
             if case['at'] == 'query':
                 got = observe_query(Request, qs)
             else:
-                gf, gp = observe_forms(Request, qs, qs='z=1&a=q')
+                gf, gp = observe_forms(Request, qs, qs='z=1&a=q', ctype=case.get('ctype', FORM_CTYPES[0]))
                 if case['at'] == 'forms':
                     got = gf
                 else:
